@@ -174,7 +174,12 @@ func concurrent(r *vlib.Run, rounds int) {
 			go func(g int) {
 				defer wg.Done()
 				<-start
-				res[g] = f.TestAndSet(now, []byte("same-handshake"))
+				if i%2 == 0 {
+					res[g] = f.TestAndSet(now, []byte("same-handshake"))
+				} else {
+					// wall-clock submission: the filter reads the clock itself (under its lock)
+					res[g] = f.TestAndSetNow([]byte("same-handshake"))
+				}
 			}(g)
 		}
 		close(start)
@@ -186,10 +191,14 @@ func concurrent(r *vlib.Run, rounds int) {
 			}
 		}
 		r.Case(fmt.Sprintf("concurrent-%d", i), false)
-		r.Count("class", "concurrent-16")
+		api := "TestAndSet(now)"
+		if i%2 == 1 {
+			api = "TestAndSetNow"
+		}
+		r.Count("class", "concurrent-16-"+api)
 		if news != 1 {
 			r.Violate("concurrent-not-exactly-one-new", "impl-oracle",
-				fmt.Sprintf("16 simultaneous submissions of one value: %d were told 'new'", news),
+				fmt.Sprintf("16 simultaneous submissions of one value to a fresh filter through %s: %d were told 'new'", api, news),
 				map[string]interface{}{"concurrent": true})
 		}
 	}
@@ -287,6 +296,133 @@ func resetThenFillOracle(r *vlib.Run) {
 	}
 }
 
+// Burst histories (implementation oracle, monotone clock, below capacity): phases of "N fresh
+// distinct values one tick apart, an idle gap, then re-submissions of values of that burst in a
+// given order". N reaches tens of thousands, so that far more entries than any per-call work
+// bound expire between two consecutive calls; gaps are chosen around the TTL so that all, none
+// or part of the burst has expired. Every answer is compared with the expiring set of the
+// property text (runOracle); short ones also with the Lean model.
+type phase struct {
+	N      int    `json:"n"`      // fresh values in the burst
+	Gap    int64  `json:"gap"`    // idle time after the burst
+	Order  string `json:"order"`  // latest-first | earliest-first | strided
+	Replay int    `json:"replay"` // how many values of the burst are re-submitted
+}
+
+type burstCase struct {
+	TTL    int64   `json:"ttl"`
+	Phases []phase `json:"phases"`
+	Burst  bool    `json:"burst"`
+}
+
+func (b burstCase) expand() hcase {
+	c := hcase{TTL: b.TTL}
+	next := 0
+	for _, p := range b.Phases {
+		first := next
+		for i := 0; i < p.N; i++ {
+			c.Ops = append(c.Ops, op{1, next})
+			next++
+		}
+		k := p.Replay
+		if k > p.N {
+			k = p.N
+		}
+		for i := 0; i < k; i++ {
+			var v int
+			switch p.Order {
+			case "latest-first":
+				v = first + p.N - 1 - i
+			case "earliest-first":
+				v = first + i
+			default: // strided over the whole burst
+				v = first + (i*(p.N/k+1)+i)%p.N
+			}
+			dt := int64(0)
+			if i == 0 {
+				dt = p.Gap
+			}
+			c.Ops = append(c.Ops, op{dt, v})
+		}
+	}
+	return c
+}
+
+func burstCheck(r *vlib.Run, d *vlib.Driver, b burstCase) {
+	c := b.expand()
+	ans, mlen, llen := runImpl(c)
+	key := fmt.Sprintf("burst ttl=%d %v", b.TTL, b.Phases)
+	expired := false
+	seen := map[int]bool{}
+	for i, o := range c.Ops {
+		if seen[o.V] && ans[i] == '0' {
+			expired = true
+		}
+		seen[o.V] = true
+	}
+	r.Case(key, expired)
+	r.Count("class", "burst-history")
+	maxN := 0
+	for _, p := range b.Phases {
+		if p.N > maxN {
+			maxN = p.N
+		}
+	}
+	switch {
+	case maxN > 10000:
+		r.Count("burst-max", ">10000")
+	case maxN > 1024:
+		r.Count("burst-max", "1025..10000")
+	default:
+		r.Count("burst-max", "<=1024")
+	}
+	if mlen != llen {
+		r.Violate("map-fifo-size-differ", "impl-oracle", fmt.Sprintf("map holds %d entries but fifo %d after %s", mlen, llen, key), b)
+	}
+	if o := runOracle(c); o != ans {
+		i := 0
+		for i < len(o) && o[i] == ans[i] {
+			i++
+		}
+		r.Violate("answers-differ-from-expiring-set", "impl-oracle",
+			fmt.Sprintf("%s (%d operations): first difference at operation %d (value %d): implementation answered %c, an expiring set answers %c", key, len(c.Ops), i, c.Ops[i].V, ans[i], o[i]), b)
+		return
+	}
+	if len(c.Ops) <= 3000 {
+		r.Validated(1)
+		if rep, want := d.Call("%s", opLine(c)), fmt.Sprintf("%s %d", ans, llen); rep != want {
+			r.Violate("model-impl-disagree", "correspondence", fmt.Sprintf("%s: implementation and Lean model disagree (impl fifo %d)", key, llen), b)
+		}
+	}
+}
+
+func bursts(r *vlib.Run, d *vlib.Driver, rng *vlib.Rng) {
+	const ttl = 1000000
+	// fixed shapes: whole burst expired / nothing expired / half expired, sizes across 1024
+	for _, n := range []int{3, 40, 700, 1023, 1024, 1025, 1500, 5000, 30000} {
+		for _, ord := range []string{"latest-first", "earliest-first", "strided"} {
+			rp := 200
+			burstCheck(r, d, burstCase{TTL: ttl, Burst: true, Phases: []phase{{n, ttl, ord, rp}, {7, 0, "earliest-first", 7}}})
+			burstCheck(r, d, burstCase{TTL: ttl, Burst: true, Phases: []phase{{n, ttl - int64(n) - 5, ord, rp}}})
+			burstCheck(r, d, burstCase{TTL: ttl, Burst: true, Phases: []phase{{n, ttl - int64(n)/2, ord, rp}, {n / 3, ttl / 2, ord, rp}}})
+		}
+	}
+	for i, n := 0, r.Scale(20, 300); i < n; i++ {
+		b := burstCase{TTL: ttl, Burst: true}
+		total := 0
+		for j, np := 0, rng.Range(1, 4); j < np && total < 70000; j++ {
+			sz := vlib.Pick(rng, []int{rng.Range(1, 60), rng.Range(900, 1200), rng.Range(1025, 4000), rng.Range(4000, 30000)})
+			total += sz
+			gap := vlib.Pick(rng, []int64{0, ttl / 2, ttl - int64(sz), ttl - int64(sz)/2, ttl - 1, ttl, ttl + 1, 3 * ttl})
+			if gap < 0 {
+				gap = 0
+			}
+			b.Phases = append(b.Phases, phase{sz, gap, vlib.Pick(rng, []string{"latest-first", "earliest-first", "strided"}), rng.Range(1, 300)})
+		}
+		burstCheck(r, d, b)
+	}
+}
+
 func main() {
 	r := vlib.NewRun("C11")
 	r.Rule = "history = list of (time step, value); exhaustive over all histories up to the tier's length over 3 values x time steps {-2,0,1,ttl-1,ttl} (ttl=4), then random long histories incl. negative steps; non-trivial = a value repeats AND (an expiry/reset made a repeat 'new' OR a backwards step occurs); distinct by canonical op line"
@@ -298,7 +434,12 @@ func main() {
 	if r.ReplayIn != "" {
 		var raw map[string]interface{}
 		var c hcase
-		if err := r.LoadReplay(&raw); err == nil && raw["concurrent"] == true {
+		var bc burstCase
+		if err := r.LoadReplay(&raw); err == nil && raw["burst"] == true {
+			if err := r.LoadReplay(&bc); err == nil {
+				burstCheck(r, d, bc)
+			}
+		} else if raw["concurrent"] == true {
 			concurrent(r, 2000)
 		} else if raw["capacityOracle"] == true {
 			capacityOracle(r)
@@ -339,7 +480,8 @@ func main() {
 		}
 		check(r, d, c)
 	}
-	concurrent(r, r.Scale(200, 5000))
+	bursts(r, d, rng)
+	concurrent(r, r.Scale(2000, 20000))
 	capacityOracle(r)
 	resetThenFillOracle(r)
 	if r.Thorough() {
